@@ -46,6 +46,13 @@ impl<'a> StatementEvaluator<'a> {
             Some(Token::Data(_)) => Ok(()),
             Some(Token::Let) => self.evaluate_let_statement(),
             Some(Token::Symbol(symbol)) => self.evaluate_assignment_statement(symbol),
+            // We only get here right after the single statement of a THEN clause
+            // that was suspended (INPUT) or left (GOSUB) and has now been resumed;
+            // the IF statement that would have skipped the ELSE clause is long gone,
+            // so skip it here.
+            Some(Token::Else) if self.program().is_after_single_statement_then_clause() => {
+                Ok(self.program().discard_remaining_tokens())
+            }
             Some(_) => Err(SyntaxError::UnexpectedToken.into()),
             None => Ok(()),
         }
